@@ -2,6 +2,7 @@ from yowsup.layers.network.dispatcher.dispatcher import YowConnectionDispatcher
 import asyncore
 import logging
 import socket
+import threading
 import traceback
 
 logger = logging.getLogger(__name__)
@@ -12,11 +13,14 @@ class AsyncoreConnectionDispatcher(YowConnectionDispatcher, asyncore.dispatcher_
         super(AsyncoreConnectionDispatcher, self).__init__(connectionCallbacks)
         asyncore.dispatcher_with_send.__init__(self)
         self._connected = False
+        # out_buffer is written by the threads that send and by the loop thread that flushes it
+        self._send_lock = threading.RLock()
 
     def sendData(self, data):
         if self._connected:
-            self.out_buffer = self.out_buffer + data
-            self.initiate_send()
+            with self._send_lock:
+                self.out_buffer = self.out_buffer + data
+                self.initiate_send()
         else:
             logger.warn("Attempted to send %d bytes while still not connected" % len(data))
 
@@ -32,6 +36,10 @@ class AsyncoreConnectionDispatcher(YowConnectionDispatcher, asyncore.dispatcher_
         if not self._connected:
             self._connected = True
             self.connectionCallbacks.onConnected()
+
+    def handle_write(self):
+        with self._send_lock:
+            self.initiate_send()
 
     def handle_close(self):
         logger.debug("handle_close")
